@@ -21,7 +21,7 @@ func init() {
 	core.Register(&core.Prop{
 		ID: "C18", Level: "exploration", Race: true,
 		Technique: "Go race detector (harness and library built with -race; verdict = WARNING: DATA RACE blocks counted in the GORACE log files) + determinism monitor: every concurrent call's result compared with the result of the same call executed alone",
-		Rule: "per case one shared error (PRNG tree depth<=6; every second one decoded from the wire first); reference results are computed sequentially on a twin built from the same descriptor (the shared value itself stays cold: nothing touches it before the goroutines start), then G goroutines (quick 16, thorough 48) are released together and each runs R rounds (3 / 6) of 14 observer operations in its own PRNG order, with no synchronisation inside the measured region; then five same-operation storms per case (PRNG-chosen operations): all goroutines released together run ONE operation 4 / 8 times back to back, so that they sit in the same function at the same time. " +
+		Rule: "per case one shared error (PRNG tree depth<=6; every second one decoded from the wire first); reference results are computed sequentially on a twin built from the same descriptor (the shared value itself stays cold: nothing touches it before the goroutines start), then G goroutines (quick 16, thorough 48) are released together and each runs R rounds (3 / 6) of 14 observer operations in its own PRNG order, with no synchronisation inside the measured region; then five same-operation storms per case (PRNG-chosen operations): all goroutines released together run ONE operation 4 times back to back, so that they sit in the same function at the same time. " +
 			"Non-trivial = case in which operations of different goroutines on the same error overlapped in time (measured from per-operation timestamps); distinct = kind-tree signature x local/decoded.",
 		Cases: tierN(320, 3000),
 		Floor: tierN(100, 1000),
@@ -269,10 +269,7 @@ func runC18(c *core.Ctx) {
 		// back. In the mixed phase two goroutines are rarely inside the same few instructions of one
 		// function; a lock-free memo whose key and value are published separately (every access atomic,
 		// nothing for the race detector to report) only shows when they are.
-		S := 4
-		if c.Tier == "thorough" {
-			S = 8
-		}
+		const S = 4
 		for _, oi := range c.R.Perm(len(c18ops))[:5] {
 			release := make(chan struct{})
 			var phase sync.WaitGroup
